@@ -102,7 +102,8 @@ class Tr(object):
             raise TranslationError('constant %r' % (e.value,))
         if isinstance(e, ast.Name):
             if e.id in env:
-                return env[e.id], self.types.get(env[e.id], 'Z')
+                ty = self.types.get(env[e.id], 'Z')
+                return env[e.id], ('bool' if ty == 'B' else ty)
             v = getattr(self.mod, e.id, None)
             if isinstance(v, int) and not isinstance(v, bool):
                 return '(%d)' % v, 'Z'      # module-level constant, inlined with its current value
@@ -187,6 +188,9 @@ class Tr(object):
             f = e.func
             if isinstance(f, ast.Name) and f.id in ('min', 'max') and len(e.args) == 2 and not e.keywords:
                 return '(Z.%s %s %s)' % (f.id, self.z(e.args[0], env), self.z(e.args[1], env)), 'Z'
+            if (isinstance(f, ast.Name) and f.id == 'len' and len(e.args) == 1 and '@events' in env and
+                    ast.unparse(e.args[0]) in ('self', 'self._events')):
+                return '(zlen %s)' % env['@events'], 'Z'          # len(self) of an event sequence = len(self._events)
             if (isinstance(f, ast.Name) and f.id == 'len' and len(e.args) == 1 and isinstance(e.args[0], ast.Name)
                     and ('len(%s)' % e.args[0].id) in env):
                 return env['len(%s)' % e.args[0].id], 'Z'       # the length of a sequence argument is a parameter
@@ -243,6 +247,44 @@ class Tr(object):
         finally:
             self.calls, self.guards = saved
 
+    def lst(self, e, env):
+        """list-valued expressions of the stateful subset: [x] * n, self._events"""
+        if ast.unparse(e) == 'self._events' and '@events' in env:
+            return env['@events']
+        if (isinstance(e, ast.BinOp) and isinstance(e.op, ast.Mult) and isinstance(e.left, ast.List) and
+                len(e.left.elts) == 1):
+            return '(repeat %s (Z.to_nat %s))' % (self.z(e.left.elts[0], env), self.z(e.right, env))
+        if isinstance(e, ast.List) and len(e.elts) == 1:
+            return '(%s :: nil)' % self.z(e.elts[0], env)
+        raise TranslationError('list expression %s' % ast.unparse(e)[:40])
+
+    def events_update(self, s, env):
+        """If statement s mutates self._events in a supported way return the new list term, else None."""
+        if '@events' not in env:
+            return None
+        ev = env['@events']
+        if isinstance(s, ast.Expr) and isinstance(s.value, ast.Call) and isinstance(s.value.func, ast.Attribute) \
+                and ast.unparse(s.value.func.value) == 'self._events' and len(s.value.args) == 1:
+            if s.value.func.attr == 'append':
+                return '(%s ++ (%s :: nil))' % (ev, self.z(s.value.args[0], env))
+            if s.value.func.attr == 'extend':
+                return '(%s ++ %s)' % (ev, self.lst(s.value.args[0], env))
+            raise TranslationError('list method %s' % s.value.func.attr)
+        def bound(b):
+            return 'None' if b is None else '(Some %s)' % self.z(b, env)
+        if isinstance(s, ast.Delete) and len(s.targets) == 1 and isinstance(s.targets[0], ast.Subscript) and \
+                ast.unparse(s.targets[0].value) == 'self._events' and isinstance(s.targets[0].slice, ast.Slice) and \
+                s.targets[0].slice.step is None:
+            sl = s.targets[0].slice
+            return '(py_del_slice %s %s %s)' % (ev, bound(sl.lower), bound(sl.upper))
+        if isinstance(s, ast.Assign) and len(s.targets) == 1 and isinstance(s.targets[0], ast.Subscript) and \
+                ast.unparse(s.targets[0].value) == 'self._events' and isinstance(s.targets[0].slice, ast.Slice):
+            sl = s.targets[0].slice
+            if sl.lower is None and sl.step is None and isinstance(sl.upper, ast.Constant) and sl.upper.value == 0:
+                return '(%s ++ %s)' % (self.lst(s.value, env), ev)        # l[:0] = xs  prepends
+            raise TranslationError('slice assignment')
+        return None
+
     def is_elem(self, e):
         """self._events[i] where i is the loop index of a `for i in range(len(self))` element-wise loop."""
         return (self.loop_index is not None and isinstance(e, ast.Subscript) and
@@ -295,6 +337,8 @@ class Tr(object):
                     return 'Some tt'
                 if kind == 'elem':
                     return 'Some %s' % env['@elem']
+                if kind == 'state':
+                    return 'Some (%s)' % ', '.join([env['@events']] + [env['self.' + a] for a in self.state_attrs])
                 raise TranslationError('control reaches the end of the function without return')
             return rest(env)
         s, tail = stmts[0], stmts[1:]
@@ -315,6 +359,19 @@ class Tr(object):
             return wrap('Some %s' % text)
         if isinstance(s, ast.Raise):
             return 'None'
+        if kind == 'state':
+            box = {}
+
+            def build():
+                box['t'] = self.events_update(s, env)
+                return box['t'] or ''
+            text, wrap = self.with_effects(build)
+            if box['t'] is not None:
+                self.fresh += 1
+                var = 'events_%d' % self.fresh
+                env2 = dict(env)
+                env2['@events'] = var
+                return wrap('let %s := %s in %s' % (var, text, self.block(tail, env2, rest, kind)))
         if isinstance(s, ast.AugAssign) and isinstance(s.op, (ast.Add, ast.Sub)):
             # x += e  ==  x = x + e
             load = ast.parse(ast.unparse(s.target), mode='eval').body
@@ -348,7 +405,7 @@ class Tr(object):
             cond, wrap = self.with_effects(lambda: self.b(s.test, env))
             # assignments inside branches must flow to the code after the if: continuation-passing
             cont = (lambda e2: self.block(tail, e2, rest, kind)) if (
-                tail or rest is not None or kind in ('unit', 'elem')) else None
+                tail or rest is not None or kind in ('unit', 'elem', 'state')) else None
             then = self.block(s.body, env, cont, kind)
             els = self.block(s.orelse, env, cont, kind) if s.orelse else (
                 cont(env) if cont else self._noelse())
@@ -405,7 +462,7 @@ def translate(modname, qual, coqname, kind, coqnames, ptypes=None):
                 elif node.attr not in reads:
                     reads.append(node.attr)
         for r in sorted(reads):
-            if r not in assigned:
+            if r not in assigned or kind == 'state':
                 p = 'self' + r
                 params.append(p)
                 env['self.' + r] = p
@@ -422,7 +479,23 @@ def translate(modname, qual, coqname, kind, coqnames, ptypes=None):
         params.append(n)
         env[n] = n
     stmts = [x for x in fd.body if not (isinstance(x, ast.Expr) and isinstance(x.value, ast.Constant))]
-    if kind == 'elem':
+    if kind == 'state':
+        # a method of an event sequence that edits self._events and scalar attributes in place: the translation maps
+        # (events, attributes read, arguments) to (new events, every attribute the method assigns, sorted by name)
+        tr.state_attrs = sorted(set(
+            t.attr for n in ast.walk(fd) if isinstance(n, (ast.Assign, ast.AugAssign))
+            for t in (n.targets if isinstance(n, ast.Assign) else [n.target])
+            if isinstance(t, ast.Attribute) and isinstance(t.value, ast.Name) and t.value.id == 'self'))
+        params = [q for q in params if q != 'self_events']
+        for a_ in tr.state_attrs:             # an assigned attribute is also an input (x += 1 reads it)
+            if 'self.' + a_ not in env:
+                params.insert(0, 'self' + a_)
+                env['self.' + a_] = 'self' + a_
+        params = sorted(set(q for q in params if q.startswith('self'))) + [q for q in params if not q.startswith('self')]
+        env.pop('self._events', None)
+        env['@events'] = 'events'
+        body = tr.block(fd.body, env, None, kind)
+    elif kind == 'elem':
         # `for i in range(len(self)): BODY` where BODY reads/writes only self._events[i]: the method maps the
         # per-element function over the event list; the translation IS that per-element function (extra last
         # parameter `elem` = the element's value before the iteration, result = its value after it)
@@ -443,11 +516,13 @@ def translate(modname, qual, coqname, kind, coqnames, ptypes=None):
         body = tr.block(stmts[0].body, env, None, kind)
     else:
         body = tr.block(fd.body, env, None, kind)
-    ty = {'Z': 'Z', 'bool': 'bool', 'unit': 'unit', 'elem': 'Z', 'F': 'PrimFloat.float', 'ZZ': '(Z * Z)'}[kind]
+    ty = {'Z': 'Z', 'bool': 'bool', 'unit': 'unit', 'elem': 'Z', 'F': 'PrimFloat.float', 'ZZ': '(Z * Z)',
+          'state': '(%s)' % ' * '.join(['list Z'] + ['Z'] * len(getattr(tr, 'state_attrs', [])))}[kind]
     if upto:
         import re as _re    # a prefix value depends only on the parameters it mentions
         params = [p for p in params if _re.search(r'(?<![\w.])%s(?![\w])' % _re.escape(p), body)]
-    sig = ' '.join('(%s : %s)' % (p, 'PrimFloat.float' if tr.types.get(p) == 'F' else 'Z') for p in params)
+    sig = ('(events : list Z) ' if kind == 'state' else '') + ' '.join(
+        '(%s : %s)' % (p, {'F': 'PrimFloat.float', 'B': 'bool'}.get(tr.types.get(p), 'Z')) for p in params)
     return 'Definition %s %s : option %s :=\n  %s.\n' % (coqname, sig, ty, body), src
 
 
@@ -463,6 +538,27 @@ def generate():
         out.append('(* %s.%s *)' % (modname, qual))
         out.append(text)
         done[coqname] = True
+    return '\n'.join(out)
+
+
+# stateful methods of event sequences (generated into coq/Gen/TrS.v; list helpers come from Model/Events.v)
+STATE_TARGETS = [
+    ('note_seq.events_lib', 'SimpleEventSequence.append', 'trs_append', 'state', {}),
+    ('note_seq.events_lib', 'SimpleEventSequence.set_length', 'trs_set_length', 'state', {'from_left': 'B'}),
+]
+
+
+def generate_state():
+    """Text of coq/Gen/TrS.v."""
+    out = ['(* GENERATED on every run by harness/vt/pytr.py from the SOURCE TEXT of the note_seq methods named below.',
+           '   Do not edit.  Proofs/TrEquivS.v proves each definition equal to the hand-written model of Model/Events.v,',
+           '   whose Python-list helpers (zlen, py_del_slice) the translation uses. *)',
+           'From Coq Require Import ZArith Bool List.', 'From NS Require Import Model.Events.',
+           'Import ListNotations.', 'Local Open Scope Z_scope.', '']
+    for modname, qual, coqname, kind, ptypes in STATE_TARGETS:
+        text, src = translate(modname, qual, coqname, kind, {}, ptypes)
+        out.append('(* %s.%s *)' % (modname, qual))
+        out.append(text)
     return '\n'.join(out)
 
 
@@ -482,3 +578,4 @@ def generate_float():
 if __name__ == '__main__':
     print(generate())
     print(generate_float())
+    print(generate_state())
